@@ -14,6 +14,7 @@ from vlib.env import ToolError, SEED
 
 TICK = 0.125
 SLOW_TICK = 0.35
+LONG_TICK = 1.25
 T = 4
 SLACK_MS = 250
 EARLY_MS = 60
@@ -276,6 +277,12 @@ def run(tier):
             for k in slow:
                 if k in sch:
                     cases.append((client, cn, k, SLOW_TICK))
+    # a timeout above 2^32 ns (4.29 s): 4 ticks of 1.25 s = 5 s - the default timeout of the clients is 10 s, so every quantity that
+    # carries it must hold more than 32 bits of nanoseconds
+    for client in ("sync", "async"):
+        for k in [((1,), 3), ((1,), 0)] + ([((), 3), ((2,), 0)] if thorough else []):
+            if k in sch:
+                cases.append((client, "v2c", k, LONG_TICK))
     # stray floods across the deadline (no reply): TimeoutError at the timeout, nothing else
     for cn in (["v2c", "v3-md5"] if not thorough else ["v2c", "v1", "v3-md5"]):
         for client in ("sync", "async"):
@@ -296,7 +303,8 @@ def run(tier):
             with lock:
                 results[c] = r
     nthreads = 16
-    threads = [threading.Thread(target=worker, args=(cases[i::nthreads],)) for i in range(nthreads)]
+    order = sorted(cases, key=lambda c: -abs(c[3]))          # the slow ones first, one per thread
+    threads = [threading.Thread(target=worker, args=(order[i::nthreads],)) for i in range(nthreads)]
     for t in threads:
         t.start()
     for t in threads:
